@@ -316,6 +316,30 @@ fn run_reject(sc: &VScen) {
 	unsafe { drop(Box::from_raw(shared as *const M as *mut M)) };
 }
 
+fn run_zst(sc: &VScen) {
+	// an EMPTY owned collection is a zero-sized value: next to a lock it may have that lock's
+	// address; the input is duplicate-free and must be accepted (C07)
+	match sc.kind.as_str() {
+		"boxed" => {
+			let r = BoxedLockCollection::try_new((OwnedLockCollection::new(arr::<0>()), mk(1)));
+			log(format!("{{\"e\":\"vctor\",\"some\":{}}}", r.is_some()));
+			drop(r);
+		}
+		"retry" => {
+			let r = RetryingLockCollection::try_new((OwnedLockCollection::new(arr::<0>()), mk(1)));
+			log(format!("{{\"e\":\"vctor\",\"some\":{}}}", r.is_some()));
+			drop(r);
+		}
+		"ref" => {
+			let data = (OwnedLockCollection::new(arr::<0>()), mk(1));
+			let r = happylock::collection::RefLockCollection::try_new(&data);
+			log(format!("{{\"e\":\"vctor\",\"some\":{}}}", r.is_some()));
+			drop(r);
+		}
+		x => panic!("values: zst path of {x}"),
+	}
+}
+
 fn run_pois(sc: &VScen) {
 	let p = Poisonable::new(mk(1));
 	for op in &sc.ops {
@@ -340,6 +364,9 @@ fn arr<const N: usize>() -> [M; N] {
 fn run_scen(sc: &VScen) {
 	if sc.ctor == "reject" {
 		return run_reject(sc);
+	}
+	if sc.ctor == "zst" {
+		return run_zst(sc);
 	}
 	if sc.kind == "pois" {
 		return run_pois(sc);
